@@ -60,6 +60,35 @@ Definition verify_with (guard : option (N * Z)) (start : Z)
 Definition verify : nat -> bytes -> bytes -> nat -> bytes -> bytes -> outcome bool :=
   verify_with k_guard pad_loop_start.
 
+(** The statements of verifyPKCS1v15 that [verify_with] transcribes, in the
+    normalised form the translator prints ([Generated.AttestGen.verify_body]);
+    Properties/C06.v checks that the source still reads like this.  Lines 1-2
+    are [pkcs1_hash_info] below, lines 5 and 7-9 are the harness-computed
+    inputs [k] and [em], lines 21-22 map [ok] to the error / nil. *)
+Definition verify_body_transcribed : list str :=
+  [ tx "hashLen,prefix1,prefix2,err := pkcs1v15HashInfo(hash,len(hashed))";
+    tx "if err!=nil { return err }";
+    tx "tLen1 := len(prefix1)+hashLen";
+    tx "tLen2 := len(prefix2)+hashLen";
+    tx "k := (pub.N.BitLen()+7)/8";
+    tx "if k<tLen1+11 { return rsa.ErrVerification }";
+    tx "c := new(big.Int).SetBytes(sig)";
+    tx "m := encrypt(new(big.Int),pub,c)";
+    tx "em := leftPad(m.Bytes(),k)";
+    tx "ok := subtle.ConstantTimeByteEq(em[0],0)";
+    tx "ok &= subtle.ConstantTimeByteEq(em[1],1)";
+    tx "ok &= subtle.ConstantTimeCompare(em[k-hashLen:k],hashed)";
+    tx "prefix1ok := subtle.ConstantTimeCompare(em[k-tLen1:k-hashLen],prefix1)";
+    tx "prefix2ok := subtle.ConstantTimeCompare(em[k-tLen2:k-hashLen],prefix2)";
+    tx "prefix1ok &= subtle.ConstantTimeByteEq(em[k-tLen1-1],0)";
+    tx "prefix2ok &= subtle.ConstantTimeByteEq(em[k-tLen2-1],0)";
+    tx "ok &= (prefix1ok|prefix2ok)";
+    tx "var correctTLen int";
+    tx "switch { case prefix1ok==1: correctTLen = tLen1; case prefix2ok==1: correctTLen = tLen2 }";
+    tx "for i := 2; i<k-correctTLen-1; i++ { ok &= subtle.ConstantTimeByteEq(em[i],0xff) }";
+    tx "if ok!=1 { return rsa.ErrVerification }";
+    tx "return nil" ].
+
 (** ** checkSignature *)
 Inductive verr := EVerification | EInsecure | EUnsupported | EChain | EHashInfo.
 
